@@ -223,7 +223,7 @@ def make_case(tier, key):
     elif group == "variations":
         ranges.update(op=(-1, -1), gi=(0, 0), a=(0, 0), b=(0, 0), c=(0, 0), d=(0, 0))
     else:  # one edit then a shared tensor / other implementation
-        ranges.update(irv=(8, 11), meta=(0, 0), alias=(0, 0), a=(0, 3), b=(0, 1), c=(0, 1), d=(0, 3), share=(-1, 1), timpl=(0, 1))
+        ranges.update(irv=(10, 10), meta=(0, 0), alias=(0, 0), a=(0, 3), b=(0, 1), c=(0, 1), d=(0, 1), share=(-1, 0), timpl=(0, 1))
 
     def body(P):
         return run_one(src, P)
